@@ -33,7 +33,8 @@ func (ex *Exec) keyTerm(k Val, kt types.Type) *Term {
 		if s.Len.IsLit() && s.Len.Lit.Sign() == 0 {
 			return ts.Int(-7) // the empty string
 		}
-		return ts.App("strid", SInt, s.Base, s.Off, s.Len)
+		z := ts.NumLit(big.NewInt(0), s.Len.S)
+		return ts.Ite(ts.Eq(s.Len, z), ts.Int(-7), ts.App("strid", SInt, s.Base, s.Off, s.Len))
 	}
 	switch x := k.(type) {
 	case RefPtr:
@@ -195,7 +196,7 @@ func (ex *Exec) mapLen(m Scalar) *Term {
 	r := ex.mapRegs(m.Typ)
 	c := ts.Select(ex.mapCard(r), m.T)
 	z := ts.NumLit(big.NewInt(0), ex.idxSort())
-	ex.assume(ts.Le(z, c, true))
+	ex.assume(ts.And(ts.Le(z, c, true), ts.Le(c, ts.NumLit(pow2(48), ex.idxSort()), true)))
 	return ts.Ite(ts.Eq(m.T, ts.Int(0)), z, c)
 }
 
